@@ -120,10 +120,13 @@ fn locate_format_string(
     runtime_memory_image: &RuntimeMemoryImage,
 ) -> StringLocation {
     if let Some(NodeValue::Value(pi_state)) = pointer_inference_results.get_node_value(*node) {
-        let format_string_parameter = symbol
+        // Ghidra may not be supplying (complete) parameter information for the symbol.
+        let Some(format_string_parameter) = symbol
             .parameters
             .get(*format_string_index.get(&symbol.name).unwrap())
-            .unwrap();
+        else {
+            return StringLocation::Unknown;
+        };
         if let Ok(address) =
             pi_state.eval_parameter_arg(format_string_parameter, runtime_memory_image)
         {
